@@ -87,6 +87,16 @@ def cfgs(tier):
         yield 'FixedPointSub %s' % nm, addsub(FixedPointSub, fmt, lambda a, b: a - b)
         yield 'FixedPointSign %s' % nm, sign(fmt)
         yield 'FixedPointComparator %s' % nm, cmp_(fmt)
+    # wide formats ("every signed fixed-point format"): 16, 32, 64 bits and beyond one machine word; the multiplier only where the
+    # product node is shared with the reference (probed under the quick budget)
+    for fmt in (((1, 7, 8), (1, 15, 16), (1, 31, 32), (1, 0, 63)) if quick else ((1, 7, 8), (1, 15, 16), (1, 31, 32), (1, 0, 63), (1, 40, 30), (1, 63, 64))):
+        nm = '%d.%d.%d' % fmt
+        yield 'FixedPointAdd %s' % nm, addsub(FixedPointAdd, fmt, lambda a, b: a + b)
+        yield 'FixedPointSub %s' % nm, addsub(FixedPointSub, fmt, lambda a, b: a - b)
+        yield 'FixedPointSign %s' % nm, sign(fmt)
+        yield 'FixedPointComparator %s' % nm, cmp_(fmt)
+    for af, bf, rf in (((1, 7, 8), (1, 7, 8), (1, 7, 8)), ((1, 7, 8), (1, 7, 8), (1, 15, 16))):      # mixed 16-bit formats: probed, the second evaluation does not finish in the budget
+        yield 'FixedPointMult %d.%d.%d x %d.%d.%d -> %d.%d.%d' % (af + bf + rf), mult(af, bf, rf)
     fl = list(formats(6 if quick else 8))
     import random
     rnd = random.Random(3)
